@@ -16,7 +16,13 @@ repair returns a value — it neither runs out of fuel nor raises. -/
 theorem C10_total (a : Acc) (s : List Char) (v : Int) (k : Nat) (chk : Option (List Char))
     (indel : Bool) (heap : Nat) (hs : IsAcgt s) (hk : 1 ≤ k) (hlen : k ≤ s.length) :
     ∃ cands st, repairDna a s v k chk indel heap = .ok (cands, st) := by
-  sorry
+  obtain ⟨sc, hsc, ⟨hc, hd, ha⟩, -⟩ := scan_init_inv a k s v
+    (fun st => ScanCount k s st ∧ ScanDet k s st ∧ ScanAcgt st)
+    ⟨ScanCount.init k s v, ScanDet.init k s v, ScanAcgt.init s v⟩
+    (fun st h hlt => ⟨h.1.step a k s st hlt, h.2.1.step a k s hk st hlt, h.2.2.step a k s hs st hlt⟩)
+  obtain ⟨fv, hfv, hacgt⟩ := fragFold_total a k s indel sc hk hlen hd hc ha
+  obtain ⟨⟨cands, st⟩, hres⟩ := repairTail_total s chk heap sc fv hs ha.splits hacgt
+  exact ⟨cands, st, by rw [repairDna_of_scan hsc hfv, hres]⟩
 
 /-- the scan loop itself: `|s| + 1` steps always suffice, wherever the errors are. -/
 theorem C10_scan_terminates (a : Acc) (s : List Char) (v : Int) (k : Nat) :
@@ -33,7 +39,21 @@ theorem C10_lookups (a : Acc) (s : List Char) (v : Int) (k : Nat) (chk : Option 
     (indel : Bool) (heap : Nat) (cands : List (List Char)) (st : RepairStats)
     (hk : 1 ≤ k) (h : repairDna a s v k chk indel heap = .ok (cands, st)) :
     st.visited ≤ s.length + 18 * k * (s.length + k) := by
-  sorry
+  obtain ⟨sc, fv, hsc, hfv, ht⟩ := repairDna_ok_inv h
+  obtain ⟨sc', hsc', ⟨hc, hd⟩, -⟩ := scan_init_inv a k s v
+    (fun st => ScanCount k s st ∧ ScanDet k s st)
+    ⟨ScanCount.init k s v, ScanDet.init k s v⟩
+    (fun st h hlt => ⟨h.1.step a k s st hlt, h.2.step a k s hk st hlt⟩)
+  rw [hsc] at hsc'; cases hsc'
+  have hcost := fragFold_cost_le hd hc hfv
+  have hvis : st.visited = fv.2 := by
+    rcases repairTail_ok_inv ht with ⟨_, -, -, e⟩ | ⟨_, -, -, e, -⟩ <;> exact e
+  have h1 : sc.detected * k ≤ s.length + k :=
+    Nat.le_trans (Nat.mul_le_mul_left _ (Nat.le_succ k)) (Nat.le_trans hc.det_le hc.loc_le)
+  have h2 : sc.detected * (k * (18 * k)) = 18 * k * (sc.detected * k) := by ac_rfl
+  have h3 := Nat.mul_le_mul_left (18 * k) h1
+  have h4 := hc.vis_le.2
+  omega
 
 /-- non-vacuity: a first nucleotide that is not an arc of the start vertex. -/
 example : (repairDna gcBalanced2 "GTCTCTCTC".toList 1 2 none true 1000).toBool = true := by
